@@ -15,6 +15,7 @@ import (
 	"strconv"
 	"strings"
 
+	"github.com/junegunn/fzf/src/util"
 	"github.com/junegunn/fzf/src/zsim"
 )
 
@@ -50,6 +51,17 @@ func genC15Plan(r *zsim.Rng) *sysPlan {
 				b.WriteByte(' ')
 			}
 			fmt.Fprintf(&b, "#x%d", k)
+			p.Lines.Extra = append(p.Lines.Extra, b.String())
+		}
+	}
+	if r.Chance(1, 4) {
+		// double-width glyphs: as many runes as fit, twice as many columns
+		for k := r.Range(1, 4); k > 0; k-- {
+			var b strings.Builder
+			for n := r.Range(8, 70); n > 0; n-- {
+				b.WriteString(string([]rune("한국어日本語中文abc ")[r.Intn(12)]))
+			}
+			fmt.Fprintf(&b, " #w%d", k)
 			p.Lines.Extra = append(p.Lines.Extra, b.String())
 		}
 	}
@@ -130,7 +142,7 @@ func c15Settle(r *sysRun, busy bool) {
 	if !complete {
 		return
 	}
-	cols, rows := r.tty.WinSize()
+	cols, rows := r.tty.Size()
 	scr := r.tty.Screen()
 	layout := argValue(plan.Args, "--layout")
 	info := argValue(plan.Args, "--info")
@@ -336,6 +348,16 @@ func c15Settle(r *sysRun, busy bool) {
 			return
 		}
 		wantTrim := strings.TrimRight(want, " ")
+		if dw := util.StringWidth(want); dw != runeWidthOf(want) {
+			// double-width glyphs: only the bounds are decided (the row never leaves the window - the terminal
+			// counts writes past the right margin - and a line that does not fit carries the ellipsis)
+			c.count("probe.wide_glyph_row", 1)
+			if dw > textWidth && !strings.Contains(text, ellipsis) {
+				c.violate("c15.ellipsis", "row %d shows %q for the %d column line %q without an ellipsis (%s)", row, text, dw, want, where)
+				return
+			}
+			continue
+		}
 		if runeWidthOf(want) <= textWidth {
 			if text != wantTrim {
 				c.violate("c15.row_text", "row %d should show result %d = %q completely (it fits in %d columns) but shows %q (%s)%s", row, idx, want, textWidth, text, where, dump())
@@ -378,6 +400,9 @@ func c15Settle(r *sysRun, busy bool) {
 			}
 			got := scr[row]
 			wt := strings.TrimRight(want, " ")
+			if util.StringWidth(wt) != runeWidthOf(wt) {
+				continue // double-width glyphs: bounds only (see the list rows)
+			}
 			if runeWidthOf(wt) < cols-2 {
 				if got != wt {
 					c.violate("c15.header_line", "screen row %d should show header line %d %q but shows %q (%s)%s", row, j, wt, got, where, dump())
@@ -417,7 +442,7 @@ func c15Settle(r *sysRun, busy bool) {
 		c.count("nontrivial", 1)
 	}
 	if r.tty.Overflow > 0 {
-		c.violate("c15.width", "the renderer wrote past the right margin %d time(s) (%s)", r.tty.Overflow, where)
+		c.violate("c15.width", "the renderer wrote past the right margin %d time(s), first: %s (%s)", r.tty.Overflow, r.tty.OverflowAt, where)
 	}
 }
 
